@@ -11,7 +11,8 @@ LEVEL = "exploration"
 RULE = (
     "case = conservative constrained system without contacts (point-mass chain with FixedDistance constraints, or "
     "1-2 rigid bodies with Revolute/Spherical joints; gravity, optional force-form spring with explicit reference "
-    "length and k <= 20) with a consistent random initial state x step size dt in [4e-3, 8e-3]; three runs per "
+    "length and k <= 20) with a consistent random initial state x step size dt in [4e-3, 8e-3] and "
+    "horizon (steps - frac) dt with frac in {0, 0.3, 0.5, 0.9} (the solver must take `steps` uniform steps); three runs per "
     "case: a long run (8-10 s, several swing periods) for the drift clause, whose first 300..500 steps are compared "
     "with a run at dt/2 (order clause) and retraced by a reversed run. Non-trivial: the system is constrained and kinetic "
     "and potential energy exchange more than 10% of the initial kinetic+|potential| scale."
@@ -23,7 +24,9 @@ ASSUMPTIONS = [
     "no secular growth: least-squares line through E(t)-E0 over the 8-10 s run; |slope|*T <= 4 x the standard deviation "
     "of the residual + 1e-9*(1+|E0|+max T); asserted only when the motion is recurrent on that horizon (the kinetic "
     "energy has at least two interior maxima in the first two thirds and reaches no new extreme afterwards), because "
-    "the energy error of a symplectic scheme is a bounded function of the state, not of time",
+    "the energy error of a symplectic scheme is a bounded function of the state, not of time; for chaotic mechanisms "
+    "(two or more links, spherical joints) the trend must in addition exceed 1e-2*(1+|E0|+max T), because their "
+    "bounded slow modulations are indistinguishable from a trend on this horizon",
     "reversibility: the forward end state with reversed velocities is written into system.q0/u0 (no re-assembly, the "
     "systems are autonomous) and integrated the same number of steps; the distance to (q0, -u0) must stay below "
     "1e-5*(1+|state|) (Newton noise times the flow's error amplification is < 1e-7 for these horizons)",
@@ -46,7 +49,9 @@ def _case(draw):
         mech["spring"]["d"] = 0.0
     for b in mech["bodies"]:
         b["mass"] = max(b["mass"], 0.5)
-    return {"mech": mech, "dt": draw(gen.f(4e-3, 8e-3)), "nsteps": draw(st.integers(300, 500)), "T_long": draw(gen.f(8.0, 10.0))}
+    return {"mech": mech, "dt": draw(gen.f(4e-3, 8e-3)), "nsteps": draw(st.integers(300, 500)), "T_long": draw(gen.f(8.0, 10.0)),
+            # the horizon is (steps - frac) * dt: generally not a multiple of the step size
+            "frac": draw(st.sampled_from([0.0, 0.0, 0.3, 0.5, 0.9]))}
 
 
 def strategy(tier):
@@ -74,7 +79,7 @@ def check(spec):
         if state is not None:
             system.q0, system.u0 = state[0].copy(), state[1].copy()
             system.q_dot0 = system.q_dot(system.t0, system.q0, system.u0)
-        sol, wrn = dynbuild.run("Rattle", system, system.t0 + steps * h, h, opts=opts)
+        sol, wrn = dynbuild.run("Rattle", system, system.t0 + (steps - spec.get("frac", 0.0)) * h, h, opts=opts)
         return system, sol
 
     n_long = int(np.ceil(spec.get("T_long", 8.0) / dt))
@@ -116,6 +121,15 @@ def check(spec):
     Ta, Tb = Tl[:cut], Tl[cut:]
     peaks = int(np.sum((Ta[1:-1] > Ta[:-2]) & (Ta[1:-1] >= Ta[2:]) & (Ta[1:-1] > 0.5 * np.max(Ta))))
     recurrent = peaks >= 2 and np.max(Tb) <= 1.05 * np.max(Ta) and np.min(Tb) >= np.min(Ta) - 0.05 * np.max(Ta)
+    # Regular motion (one degree of freedom: a body on a revolute joint; or the integrable spherical pendulum): the
+    # energy error is (quasi-)periodic and the regression oracle is sharp. Chains with two or more links and bodies on
+    # spherical joints are chaotic; there the error of the unchanged scheme shows slow bounded modulations that look
+    # like a trend on a 10 s window (seeds 4 and 6: trend 6.7x the oscillation, saturating by t = 25 s on a 40 s
+    # run), so only a gross drift (also above 1e-2 of the energy scale, ~30x the largest modulation observed) is
+    # asserted for them.
+    njoint = len(mech.get("joints", []))
+    regular = (mech["kind"] == "point_pendulum" and len(mech["bodies"]) == 1) or (
+        mech["kind"] == "chain" and njoint == 1 and mech["joints"][0]["type"] == "Revolute")
     if not recurrent:
         res.label("drift_clause_not_asserted_motion_not_recurrent")
     else:
@@ -126,10 +140,10 @@ def check(spec):
         trend = abs(float(coef[1] * tt[-1]))
         osc = float(np.std(e - A @ coef))
         res.ok()
-        res.label("drift_clause_asserted")
-        if trend > 4.0 * osc + 1e-9 * sc:
+        res.label("drift_clause_asserted:" + ("regular_motion" if regular else "chaotic_motion_gross_drift_only"))
+        if trend > 4.0 * osc + 1e-9 * sc and (regular or trend > 1e-2 * sc):
             res.fail("no_secular_energy_growth", site, trend / (osc + 1e-300), feats,
-                     f"energy trend over the run {trend:.3e}, oscillation about it {osc:.3e} (std), {n_long} steps")
+                     f"energy trend over the run {trend:.3e}, oscillation about it {osc:.3e} (std), scale {sc:.3e}, {n_long} steps")
     # ---- reversibility --------------------------------------------------------------------------
     qN, uN = np.asarray(soll.q)[n], np.asarray(soll.u)[n]
     try:
